@@ -294,7 +294,7 @@ def run(ctx, res):
 # corpus syntax trees over a critical alphabet; (a) the model's printer against an independent printer written
 # below, (b) the REAL parts() against the model's rfc_denote inside the guard (a difference is a VIOLATION);
 # outside the guard a difference must be what the model's parts() predicts and is the known class C01-F3 / C01-F4.
-RFC_ALPHA = ["a", "B", "z", "9", "-", " ", ";", ":", ",", "=", '"', "\\", "%", "2", "C", "n", "N", "é"]
+RFC_ALPHA = ["a", "B", "z", "9", "-", " ", ";", ":", ",", "=", '"', "\\", "%", "2", "C", "n", "N", "é", "\U0001F600"]   # incl. a character outside the BMP
 RFC_QSAFE = [c for c in RFC_ALPHA if c != '"']
 RFC_SAFE = [c for c in RFC_QSAFE if c not in ";:,"]
 RFC_NAME = list("abzABZ09-")
